@@ -352,6 +352,10 @@ static int g_policy; /* 0 rand-sticky, 1 pct, 2 round-robin-ish */
 static int g_stick = 70;
 static int g_spin_limit = 80;
 static FILE* g_dummy;
+/* guide: run the named thread until one of its steps changes tracked memory */
+#define GUIDE_ENV (-1000)
+static int* g_guide;
+static int g_nguide, g_iguide;
 /* replay */
 static int* g_replay;
 static int g_nreplay, g_ireplay;
@@ -388,6 +392,7 @@ static void end_run(const char* why) __attribute__((noreturn));
 static void emit_init_fields(int from) {
   /* {"k":"init","w":{...}} for fields from index `from` */
   if (from >= g_nfld) return;
+  if (g_on && self && g_guide && g_iguide < g_nguide && g_guide[g_iguide] == self->idx) g_iguide++;
   buf_printf("{\"i\":%ld,\"k\":\"reg\",\"t\":\"t%d\",\"w\":[", g_evno++, self ? self->idx : 0);
   int first = 1;
   for (int i = from; i < g_nfld; i++) {
@@ -433,6 +438,19 @@ static int pick(vthread_t* cur) {
   int en[8], ne = 0;
   for (int k = 0; k < g_nenv; k++)
     if (g_env[k].enabled()) en[ne++] = k;
+  while (g_guide && g_iguide < g_nguide) {
+    int d = g_guide[g_iguide];
+    if (d == GUIDE_ENV) {
+      g_iguide++;
+      if (ne) return -1 - en[0];
+      continue;
+    }
+    if (d >= 0 && d < g_nthr && g_thr[d].alive && g_thr[d].started &&
+        !(g_thr[d].wait_for >= 0 && g_thr[g_thr[d].wait_for].alive) &&
+        !(g_thr[d].yielding && g_thr[d].yield_epoch == g_epoch && g_thr[d].quiet_points > 3 * g_spin_limit))
+      return d;
+    g_iguide = g_nguide; /* infeasible: fall back to the seeded policy */
+  }
   if (n == 0) {
     /* nothing can run: give idle pollers one extra poll per epoch (kernel-side
        readiness is not visible as a memory change), then heuristic spinners a
@@ -451,7 +469,10 @@ static int pick(vthread_t* cur) {
     if (g_spin_resumes < 40) {
       for (int i = 0; i < g_nthr; i++) {
         vthread_t* t = &g_thr[i];
-        if (t->alive && t->started && t->yielding == Y_SPIN && !(t->wait_for >= 0 && g_thr[t->wait_for].alive)) {
+        /* busy-waiters (heuristic, or cpu_relax after e.g. a failed CAS from a stale snapshot,
+           whose retry needs no foreign change) get a bounded number of retries */
+        if (t->alive && t->started && (t->yielding == Y_SPIN || t->yielding == Y_RELAX) &&
+            !(t->wait_for >= 0 && g_thr[t->wait_for].alive)) {
           g_spin_resumes++;
           t->quiet_points = 0;
           return i;
@@ -534,6 +555,7 @@ static void diff_and_emit(vthread_t* s, int force) {
     }
   }
   line[n] = 0;
+  if (changed && g_guide && g_iguide < g_nguide && g_guide[g_iguide] == s->idx) g_iguide++;
   if (s->uw_addr) {
     uint64_t now = 0;
     memcpy(&now, (void*)s->uw_addr, s->uw_size > 8 ? 8 : s->uw_size);
@@ -576,6 +598,8 @@ static void dead_access(vthread_t* s, const range_t* r, uintptr_t pc, const char
              s ? s->idx : -1, g_obj[r->obj].name, k, fn_of(pc));
 }
 
+extern void vrt_glue_plain_access(uintptr_t addr, size_t size, int iswrite, uintptr_t pc) __attribute__((weak));
+static int g_xstack;
 /* Central scheduling point. iswrite: 0 read, 1 write/RMW. sp: unconditional
    scheduling point (atomic, volatile, hook, syscall); otherwise only if the
    address is tracked. Returns 1 if the access is to a tracked field. */
@@ -584,6 +608,7 @@ static int point(const char* k, const void* addrp, size_t size, int iswrite, int
   if (!g_on || !s || s->in_rt) return 0;
   s->in_rt = 1;
   uintptr_t addr = (uintptr_t)addrp;
+  if (g_xstack && !sp && addr && vrt_glue_plain_access) vrt_glue_plain_access(addr, size, iswrite, pc);
   const range_t* r = addr ? range_of(addr, size) : NULL;
   int fldidx = -1;
   if (r) {
@@ -752,6 +777,7 @@ void vrt_init(void) {
   g_max_points = vrt_getenv_int("VRT_MAX_POINTS", 400000);
   g_spin_limit = (int)vrt_getenv_int("VRT_SPIN_LIMIT", 80);
   g_env_pct = (int)vrt_getenv_int("VRT_ENV_PCT", 3);
+  g_xstack = (int)vrt_getenv_int("VRT_XSTACK", 0);
   const char* pol = vrt_getenv("VRT_POLICY", "mix");
   if (!strcmp(pol, "mix")) {
     /* derive policy + stickiness from the seed for variety */
@@ -773,6 +799,22 @@ void vrt_init(void) {
     g_pct_d = 1 + (int)rnd(3);
     g_pct_k = (int)vrt_getenv_int("VRT_PCT_K", 600);
     for (int d = 0; d < g_pct_d; d++) g_pct_pts[d] = 1 + (long)rnd((unsigned)g_pct_k);
+  }
+  const char* gp = getenv("VRT_GUIDE");
+  if (gp && *gp) {
+    FILE* f = fopen(gp, "r");
+    if (f) {
+      char w[32];
+      int cap = 0;
+      while (fscanf(f, "%31s", w) == 1) {
+        if (g_nguide == cap) {
+          cap = cap ? cap * 2 : 256;
+          g_guide = realloc(g_guide, sizeof(int) * (size_t)cap);
+        }
+        g_guide[g_nguide++] = (w[0] == 't') ? atoi(w + 1) : GUIDE_ENV;
+      }
+      fclose(f);
+    }
   }
   const char* rp = getenv("VRT_REPLAY");
   if (rp && *rp) {
@@ -1041,7 +1083,12 @@ void __tsan_func_entry(void* call_pc) {
 void __tsan_func_exit(void) {
   vthread_t* s = self;
   if (!g_on || !s || s->in_rt || !g_nsec) return;
-  if (s->atomic_depth > 0 && in_section(PC)) s->atomic_depth--;
+  if (s->atomic_depth > 0 && in_section(PC)) {
+    s->atomic_depth--;
+    /* leaving an atomic section is a scheduling point too: what the caller does next
+       (plain reads included) can be separated from the section's effect */
+    if (s->atomic_depth == 0) point("RET", NULL, 0, 0, 1, -1, PC);
+  }
 }
 
 static void set_old(long long v) {
@@ -1181,6 +1228,7 @@ void __tsan_set_fiber_name(void* h, const char* n) { (void)h; (void)n; }
 
 /* access for the glue */
 void** vrt_running_slot(int idx) { return &g_thr[idx].running; }
+const char* vrt_fn_of(uintptr_t pc) { return fn_of(pc); }
 int vrt_nthreads(void) { return g_nthr; }
 void vrt_emit_raw(const char* fmt, ...) {
   char tmp[1024];
